@@ -73,6 +73,7 @@ def flag(b):
 class Stats:
   paths = 0          # harness invocations (= path-tree iterations)
   completed = 0      # invocations that reached the comparison with the oracle
+  infra = []         # HarnessError texts
   fails = []         # realised kwargs of failing paths
   errors = []        # text of exceptions that escaped the harness body
   sigs = {}          # signature -> nontrivial flag
@@ -83,6 +84,7 @@ def reset_stats():
   Stats.paths = 0
   Stats.completed = 0
   Stats.fails = []
+  Stats.infra = []
   Stats.errors = []
   Stats.sigs = {}
   Stats.samples = []
@@ -102,6 +104,12 @@ def sig(signature, nontrivial=True):
 
 class Discard(Exception):
   pass
+
+
+class HarnessError(Exception):
+  """The harness found its own model/stub inconsistent with reality (e.g. the
+  token stub disagrees with the real tokenizer).  Never a property violation:
+  reported as an infrastructure error (exit 2)."""
 
 
 def discard():
@@ -127,6 +135,11 @@ def guard(fn, names, args):
   try:
     ok = fn(*args)
   except Discard:
+    return True
+  except HarnessError as e:
+    with native():
+      if len(Stats.infra) < 5:
+        Stats.infra.append(str(e)[:500])
     return True
   except Exception as e:  # never BaseException: CrossHair steers with those
     ok = False
